@@ -116,6 +116,9 @@ func snapshotCheck(build func() Inst, st *Stats) *Viol {
 			names = append(names, so.Name)
 		}
 		if v := bb.Step(o); v != nil {
+			if v.Has("C16") {
+				return v
+			}
 			continue // not this property's business (other checks report it)
 		}
 		st.Nested["snapshot_then_mutation"]++
